@@ -33,18 +33,18 @@ CHECKS.update({
     'C03': ('Hypothesis program generator (all flavours/control flow, checked + unchecked builds); invariant on the VM outcome: never a committed halt',
             'Generated-input search; the oracle is an invariant of the execution (no halt with an empty choice stack), decided '
             'exactly per run by the backtracking VM with state-cycle detection.', '3/C03'),
-    'C09': ('exhaustive boundary-grid enumeration of operator x operand types x operand pairs x usage position x word size vs harness arithmetic',
+    'C09': ('exhaustive boundary-grid enumeration of operator x operand types x operand pairs x usage position (value, recast, branch, loop condition, defeat argument, byte-array store index, dynamic array length) x word size vs harness arithmetic',
             'The listed domain (operators x boundary grid x positions x word sizes) is finite and enumerated completely on '
             'every run; random extra operands widen it in the thorough tier.', '3/C09'),
-    'C13': ('enumeration of all single bytes / byte pairs / char literals + Hypothesis strings and constant arrays; static data-section and dynamic print/index/length oracles',
+    'C13': ('enumeration of all single bytes / byte pairs / char literals (escaped and raw spellings) + Hypothesis byte strings, raw Unicode text and constant arrays; static data-section and dynamic print/index/length oracles',
             'Single bytes and char literals exhaustively, pairs exhaustively in the thorough tier; longer strings and arrays '
             'sampled. The assembler acceptance and byte-exact round trip are cheap, exact oracles.', '3/C13'),
-    'C14': ('Hypothesis constant-expression trees with de-constified twins; differential VM output vs run-time reference semantics',
+    'C14': ('Hypothesis constant-expression trees and array literals of constant expressions with de-constified twins; differential VM output vs run-time reference semantics',
             'Metamorphic/differential search over constant expressions and their run-time twins (any subset of leaves '
             'de-constified), oracle = reference interpreter with run-time semantics.', '3/C14'),
     'C15': ('Hypothesis program generator; differential checked vs unchecked build on the VM for fault-free runs',
             'Differential between the two builds of the same program on the same VM; no model needed.', '3/C15'),
-    'C18': ('metamorphic: byte-identical builds across processes/hash seeds, event streams equal across stack sizes, word sizes (when values fit) and lint',
+    'C18': ('metamorphic: byte-identical builds across processes/hash seeds/interpreter optimisation levels, event streams equal across stack sizes, word sizes (when values fit) and lint',
             'Metamorphic relations over configurations on generated programs and the example corpus.', '3/C18'),
 })
 
@@ -52,7 +52,7 @@ CHECKS.update({
     'C06': ('exhaustive enumeration of construct placements (flavour x context chain x leaf) + Hypothesis deeper chains vs independent context checker',
             'All placements with chains up to length 3 (quick) / 4 (thorough) are enumerated; deeper chains sampled. The '
             'oracle is a 100-line independent implementation of the README context table; both directions are compared.', '3/C06'),
-    'C10': ('Hypothesis text / token-soup / token-mutation / ill-formed-program fuzzing of the whole pipeline and the CLI (thorough tier adds atheris/libFuzzer coverage-guided campaigns with the oracle in the target); crash, span, render, assemble and file-contract oracles',
+    'C10': ('Hypothesis text / token-soup / token-mutation / ill-formed-program / label-like-identifier program fuzzing of the whole pipeline and the CLI (thorough tier adds atheris/libFuzzer coverage-guided campaigns with the oracle in the target); crash, span, render, assemble and file-contract oracles',
             'Fuzzing with structural generators; the oracle is the totality contract itself (only CompilerError, located, '
             'renderable; output assembles; CLI exit/file behaviour).', '3/C10'),
     'C11': ('exhaustive operator pairs/triples with decorations + Hypothesis random trees; round trip print(min parens)->parse and independent precedence-climbing parser',
@@ -68,7 +68,7 @@ CHECKS.update({
             'Generated-input search with a run-time invariant monitor on the VM (per-access entitlement: frame window, live '
             'array extents tracked from ap, globals, protected words, jump targets) at every stack size from S_min+2 down to '
             'S_min-3, plus the differential oracle.', '3/C04'),
-    'C05': ('grid enumeration of fault probes (kind x element type x storage x access form x boundary operand x word size) vs reference interpreter; replay monitor for "no effect before the fault"',
+    'C05': ('grid enumeration of fault probes (kind x element type x storage x access form x operand expression form x boundary operand x word size) vs reference interpreter; replay monitor for "no effect before the fault"',
             'The probe grid is enumerated (quick: all boundary-adjacent operands + a seeded quarter of the rest; thorough: '
             'complete); the reference decides which fault occurs, the VM event stream must match exactly.', '3/C05'),
     'C07': ('Hypothesis well-typed program generator + single-rule statement mutants; differential accept/reject vs independent typechecker; overload identity via output',
